@@ -323,7 +323,7 @@ def _thread_harness(cfg):
             return out, "outcome %r is not the result of any sequential order of the operations" % (out,)
         return out, None
 
-    r = sched.explore(make, ("_fake_clock.py",), bound, opcodes, check, max_runs)
+    r = sched.explore(make, ("_fake_clock.py",), bound, opcodes, check, max_runs, max_seconds=600)
     name = "|".join(",".join(t) for t in threads_ops)
     acc.count(states=r["runs"], evaluations=r["runs"], transitions=r["runs"] * max(1, r["points_max"]),
               nontrivial=len(r["outcomes"]))
